@@ -1,0 +1,104 @@
+//go:build verif
+
+// Contracts checked by /verif/gowp. This file contains comments only and is compiled only
+// with -tags verif.
+
+package roles
+
+// C18 (provider roles).
+//
+// Reconcile: the permission requests that are validated are the revision's own; no role is
+// applied when any request was rejected or validation failed; every role that is applied must
+// be controllable by the revision; the resources a role is rendered for come from the
+// revision's own object references or from those of another member of its provider family that
+// is in the same registry and organisation (OrgDiffer), and from nowhere else.
+//
+//@ func (*roles.Reconciler).Reconcile
+//@ props C18
+//@ requires r != nil
+//@ ghost validated bool = false
+//@ ghost nrejected int = 0
+//@ let $dr = result roles.DefinedResources
+//@ optional site roles.DefinedResources($refs) as family-member-resources
+//@   where $refs != pr.Status.ObjectRefs
+//@   assert [C18:resources-only-from-own-or-same-org-family-members] $refs == member.Status.ObjectRefs && (&member).GetUID() != pr.GetUID()
+//@        && !r.org.Differs(pr.Spec.Package, member.Spec.Package)
+//@ site builtin.append($to, $add...) as family-resources
+//@   where $to == resources
+//@   assert [C18:only-defined-resources-are-added] $add == $dr
+// (auxiliary: the list of applied role names is a different slice from the resource list)
+//@ loop range r.rbac.RenderClusterRoles(pr, resources)
+//@   invariant [C18:aux-applied-names-are-not-the-resources] &applied[0] != &resources[0]
+//@ site (roles.PermissionRequestsValidator).ValidatePermissionRequests(_, _, $reqs...)
+//@   assert [C18:validates-the-revisions-own-requests] $reqs == pr.Status.PermissionRequests
+//@   update validated = err == nil
+//@   update nrejected = len(result)
+//@ site (roles.ClusterRoleRenderer).RenderClusterRoles(_, $p, $rs)
+//@   assert [C18:no-role-rendered-when-a-request-was-rejected] validated && nrejected == 0
+//@   assert [C18:roles-rendered-for-this-revision] $p == pr && $rs == resources
+//@ site (resource.Applicator).Apply(_, _, $o, $opts...)
+//@   assert [C18:no-role-applied-when-a-request-was-rejected] validated && nrejected == 0
+//@   assert [C18,C02:role-must-be-controllable-by-the-revision] contains($opts, resource.MustBeControllableBy(pr.GetUID()))
+
+// DefinedResources: every resource returned is the <plural>.<group> of a CustomResourceDefinition
+// reference among those given.
+//@ func roles.DefinedResources
+//@ props C18
+//@ sweep
+//@ ensures [C18:defined-resources-are-crd-references] forall i :: 0 <= i && i < len(result) ==> exists j :: 0 <= j && j < len(refs)
+//@      && refs[j].Kind == "CustomResourceDefinition" && schema.ParseGroupVersion(refs[j].APIVersion)[0].Group == "apiextensions.k8s.io"
+//@      && strings.Cut(refs[j].Name, ".")[2] && result[i].Plural == strings.Cut(refs[j].Name, ".")[0] && result[i].Group == strings.Cut(refs[j].Name, ".")[1]
+//@ loop range refs
+//@   invariant [C18:defined-so-far] forall i {out[i]} :: 0 <= i && i < len(out) ==> exists j :: 0 <= j && j < done
+//@      && refs[j].Kind == "CustomResourceDefinition" && schema.ParseGroupVersion(refs[j].APIVersion)[0].Group == "apiextensions.k8s.io"
+//@      && strings.Cut(refs[j].Name, ".")[2] && out[i].Plural == strings.Cut(refs[j].Name, ".")[0] && out[i].Group == strings.Cut(refs[j].Name, ".")[1]
+
+// OrgDiffer: two sources are in the same org only if both parse and have the same registry
+// and the same first repository path segment.
+//@ func (roles.OrgDiffer).Differs
+//@ props C18
+//@ ensures [C18:same-org-means-same-registry-and-first-path-segment] !result ==>
+//@      name.ParseReference(a, name.WithDefaultRegistry(d.DefaultRegistry))[1] == nil && name.ParseReference(b, name.WithDefaultRegistry(d.DefaultRegistry))[1] == nil
+//@      && name.ParseReference(a, name.WithDefaultRegistry(d.DefaultRegistry))[0].Context().RegistryStr() == name.ParseReference(b, name.WithDefaultRegistry(d.DefaultRegistry))[0].Context().RegistryStr()
+//@      && strings.Split(name.ParseReference(a, name.WithDefaultRegistry(d.DefaultRegistry))[0].Context().RepositoryStr(), "/")[0] == strings.Split(name.ParseReference(b, name.WithDefaultRegistry(d.DefaultRegistry))[0].Context().RepositoryStr(), "/")[0]
+
+// withVerbs: the same rules, in order, with the given verbs and nothing else changed.
+//@ func roles.withVerbs
+//@ props C18
+//@ sweep
+//@ ensures [C18:with-verbs-changes-only-verbs] len(result) == len(r) && forall i :: 0 <= i && i < len(r) ==>
+//@      result[i].Verbs == verbs && result[i].APIGroups == r[i].APIGroups && result[i].Resources == r[i].Resources
+//@        && result[i].ResourceNames == r[i].ResourceNames && result[i].NonResourceURLs == r[i].NonResourceURLs
+//@ loop range r
+//@   invariant [C18:with-verbs-so-far] len(verbal) == len(r) && forall k :: 0 <= k && k < done ==>
+//@      verbal[k].Verbs == verbs && verbal[k].APIGroups == r[k].APIGroups && verbal[k].Resources == r[k].Resources
+//@        && verbal[k].ResourceNames == r[k].ResourceNames && verbal[k].NonResourceURLs == r[k].NonResourceURLs
+
+// VerySecureValidator (the default): rejects everything that is requested.
+//@ func roles.VerySecureValidator
+//@ props C18
+//@ site roles.Expand(_, $rs...)
+//@   assert [C18:default-validator-rejects-every-request] $rs == requests
+
+// RenderClusterRoles (provider). The resources-by-group map only ever receives, under the group
+// of a given resource, that resource's <plural> and <plural>/status; the rule list has one rule
+// per group naming exactly that group and that map entry. (That the system role is exactly those
+// rules with the system verbs, the finalizers rule, rulesSystemExtra and the revision's requests
+// is checked by the bounded stand-in C18 rendered-system-role, not proved: the four-fold append
+// chain over struct elements is beyond what the generated conditions discharge here.)
+
+//@ func roles.RenderClusterRoles
+//@ props C18
+//@ globals internal/controller/rbac/provider/roles
+//@ requires pr != nil
+//@ optional site builtin.mapupdate($m, $k, $v) as resources-by-group
+//@   where $m == resources
+//@   assert [C18:resources-recorded-under-their-own-group] $k == r.Group
+//@   assert [C18:only-plural-and-status-of-the-resource-are-added] len($v) > 0 ==> (len($v) == len(resources[r.Group]) + 2
+//@        && $v[len($v) - 2] == r.Plural && $v[len($v) - 1] == r.Plural + "/status"
+//@        && forall q :: 0 <= q && q < len($v) - 2 ==> $v[q] == resources[r.Group][q])
+//@ loop range groups
+//@   invariant [C18:one-rule-per-group-count] len(rules) == done
+//@   invariant [C18:one-rule-per-group-names-the-group] forall i :: 0 <= i && i < len(rules) ==> live(rules[i].APIGroups) && len(rules[i].APIGroups) == 1 && rules[i].APIGroups[0] == groups[i]
+//@   invariant [C18:one-rule-per-group-resources] forall i :: 0 <= i && i < len(rules) ==> rules[i].Resources == resources[groups[i]] && len(rules[i].ResourceNames) == 0 && len(rules[i].NonResourceURLs) == 0
+//@ ensures [C18:three-roles-or-none] len(result) == 0 || len(result) == 3
